@@ -58,6 +58,7 @@ fn run_scenario(out: &mut TraceOut, family: &str, seed: u64, idx: u64, heavy: bo
         "sorter" => sorter::scn_sorter(out, &mut r, idx, heavy),
         "spill" => sorter::scn_spill(out, &mut r, idx, heavy),
         "sorter_real" => sorter::scn_sorter_real(out, &mut r, idx, true),
+        "merge_resume" => merger::scn_merge_resume(out, &mut r, idx, heavy),
         "sorter_framing" => sorter::scn_sorter_framing(out, &mut r, idx, heavy),
         "open" => open::scn_open(out, &mut r, idx, heavy),
         "varint_sweep" => varint::scn_sweep(out),
